@@ -309,7 +309,7 @@ def _run_case(case, exec_seed, exec_tape, stack):
                             V("result", "output-differs", {"output": o, "got": repr(got)[:300], "ref": repr(ref.R0[o])[:300]})
                             break
                     # 2. stored data
-                    _check_stored(w, cfg, res, ref, folder, V)
+                    _check_stored(w, cfg, res, ref, folder, V, fresh_folder=not resumed)
                     # 3 + 4. call log
                     for kind, detail in C.check_calls(w, (carry["calls"] if resumed else []) + list(sim.calls), ref.C0):
                         V("calls", kind, detail)
@@ -342,7 +342,7 @@ def _run_case(case, exec_seed, exec_tape, stack):
     return out
 
 
-def _check_stored(w, cfg, res, ref, folder, V):
+def _check_stored(w, cfg, res, ref, folder, V, fresh_folder=True):
     from pipefunc.map import load_outputs
     from pipefunc.map._storage_array._base import StorageBase
 
@@ -366,8 +366,13 @@ def _check_stored(w, cfg, res, ref, folder, V):
     for o in all_outputs(w):
         sid = C.storage_of(cfg["storage"], w, o)
         fd = next(f for f in w["functions"] if o in f["outputs"])
-        persisted = (not fd.get("mapspec")) or sid == "file_array" or cfg["persist_memory"]
+        persisted = (not fd.get("mapspec")) or sid in ("file_array", "eager_dict") or cfg["persist_memory"]
         if not persisted:
+            # "equal stored data for every choice": with persist_memory off a memory backend leaves nothing behind,
+            # whichever entry point and executor ran the map
+            if fresh_folder and os.path.exists(os.path.join(folder, "outputs", o, "dict_array.cloudpickle")):
+                V("stored", "memory-storage-persisted-although-persist_memory-is-off", {"output": o, "storage": sid, "entry": cfg["entry"]})
+                return
             continue
         try:
             got = canon(load_outputs(o, run_folder=folder))
